@@ -244,9 +244,9 @@ class Case:
             conf["require-template-schema-exists"] = False
         else:
             conf["template"] = self.templ
-        if self.templ == "matryer" and not (self.target == "alias" and self.place == "inpkg"):
-            # a replaced signature no longer implements the source interface (and in a separate package the ensure
-            # line needs an import of the source package that the template leaves to goimports): the documented switch
+        if self.templ == "matryer" and self.target != "alias":
+            # a replaced signature no longer implements the source interface: the documented switch for that.
+            # (With an alias of the original type as replacement the ensure line stays on and must compile.)
             conf["template-data"] = {"skip-ensure": True}
         entry = {"config": conf}
         m = self.mapping() if with_setting else None
@@ -810,20 +810,27 @@ def process_leak(ctx, binp, drv, probe_path, lcases, thorough, timing):
                     pass
         return lc, ws, vlib.RunResult(code, out, err, time.time() - t, to, evs)
 
+    # the run without any setting does not depend on the write set: one baseline per (template, formatter)
+    bases = {}
+    for lc in lcases:
+        k = (lc.templ, lc.fmt)
+        if k not in bases:
+            bases[k] = LeakCase(9000 + len(bases), lc.rec, lc.templ, lc.fmt)
     with cf.ThreadPoolExecutor(max_workers=8) as ex:
-        results = list(ex.map(one, [(lc, ws) for lc in lcases for ws in (False, True)]))
+        results = list(ex.map(one, [(b, False) for b in bases.values()] + [(lc, True) for lc in lcases]))
     res = {(lc.id, ws): r for lc, ws, r in results}
     live = []
+    for b in bases.values():
+        if res[(b.id, False)].code != 0:
+            raise MachineryError(f"no-leak baseline run failed for {b.templ}/{b.fmt}: {res[(b.id, False)].brief()}")
     for lc in lcases:
-        ra, rb = res[(lc.id, False)], res[(lc.id, True)]
-        if ra.code != 0:
-            raise MachineryError(f"no-leak baseline run failed for {lc.label()}: {ra.brief()}")
+        rb = res[(lc.id, True)]
         if rb.code != 0:
             ctx.violation(lc.sig(lc.units[0], "panic" if rb.panicked else "run-failed"),
                           {"config": lc.config(True, "probe.templ"), "run_with_setting": rb.brief()})
         else:
             live.append(lc)
-    unitsA = [u for lc in lcases for u in lc.units]
+    unitsA = [u for b in bases.values() for u in b.units]
     unitsB = [u for lc in live for u in lc.units]
     obsA = observe_all(ctx, drv, trees[False], unitsA, "LA")
     obsB = observe_all(ctx, drv, trees[True], unitsB, "LB")
@@ -835,8 +842,8 @@ def process_leak(ctx, binp, drv, probe_path, lcases, thorough, timing):
         k, v = sorted(buildA.items())[0]
         raise MachineryError(f"no-leak baseline tree does not compile, e.g. {k}: {v[:500]}")
     rejected = set()
-    for lc in lcases:
-        for u in lc.units:
+    for b in bases.values():
+        for u in b.units:
             oa = obsA[u.id]
             if "error" in oa or matches(oa, u.rec["base"]):
                 raise MachineryError(f"no-leak baseline observation of {u.id} is not the world's own signatures: {json.dumps(oa)[:600]}")
@@ -858,12 +865,13 @@ def process_leak(ctx, binp, drv, probe_path, lcases, thorough, timing):
                 leaked = [k for k, st in u.rec["status"].items() if st == "unchanged"]
                 ctx.violation(lc.sig(u, kind, "must-stay-unchanged:" + ",".join(sorted(leaked))),
                               {"config": lc.config(True, "probe.templ"), "package": f"{MOD}/{LPKG[u.pkg][0]}",
-                               "status_per_key": u.rec["status"], "observed_with_settings": ob, "observed_without": obsA[u.id],
+                               "status_per_key": u.rec["status"], "observed_with_settings": ob,
+                               "observed_without": obsA[bases[(lc.templ, lc.fmt)].id + "." + u.pkg],
                                "accept": u.rec["accept"], "compile_error": buildB.get(lc.id, "")[:800]})
     # trace
     events = []
-    for lc in lcases:
-        for ws in (False, True):
+    for lc, ws in [(b, False) for b in bases.values()] + [(lc, True) for lc in lcases]:
+        if True:
             r = res[(lc.id, ws)]
             if r.code != 0:
                 continue
@@ -929,7 +937,7 @@ def run(ctx):
         raise MachineryError("observation dimensions were not exported")
     obsdims = {k: sorted(v) for k, v in od[0].items()}
     n_pred = sum(1 for r in rows if r[1])
-    unexpected_pred = [r[0] for r in rows if r[1] and not (r[0][3] == "dstpkg" and r[0][5] == "separate")]
+    unexpected_pred = [r[0] for r in rows if r[1]]
     if unexpected_pred:
         ctx.note(f"model-level: the code-shaped layer predicts {len(unexpected_pred)} violations outside the known deviation; replaying them")
     ctx.cov["model_cases"] = len(rows)
@@ -948,7 +956,7 @@ def run(ctx):
         small = [r for r in lrecs if len(r["writes"]) <= 2]
         big = [r for r in lrecs if len(r["writes"]) > 2]
         ctx.rng.shuffle(big)
-        pick = small + (big if thorough else big[:16])
+        pick = small + (big if thorough else big[:10])
         if ctx.replay:
             rp = json.loads(open(ctx.replay).read())["sig"]
             pick = [r for r in lrecs if ",".join(f"{lv}:{k}" for lv, k in sorted(tuple(w) for w in r["writes"])) == rp["writes"]
@@ -981,7 +989,7 @@ def run(ctx):
         chosen = [tuple(rp["sig"][d] for d in DIMS)]
         uncovered = 0
     else:
-        n = 6000 if thorough else 400
+        n = 6000 if thorough else 320
         chosen, uncovered = select_cases(rows, obsdims, ctx.rng, n, 40 if thorough else 6)
         for d in unexpected_pred[:20]:
             chosen.append(tuple(d) + ("testify", "min", "gofmt"))
@@ -1064,12 +1072,11 @@ def run(ctx):
     ctx.assumptions += [
         "the model check covers every combination of the dimensions in spec/ReplaceTypeMC.tla; quick: the binary is exercised on a seeded "
         "covering sample of them (all values of every dimension, all value pairs, selected triples); thorough: on the covering core plus a seeded "
-        "sample of about 70% of the model's cases (the ones the code-shaped layer predicts to hit the known finding: 40)",
+        "sample of about 70% of the model's cases",
         "nested occurrences ([]T, *T, map[K]T, chan T, func(T) T, ...T) and the other spelling (alias/named) of the replaced type are "
         "accepted replaced or not: docs/replace-type.md and the property statement leave them open",
-        "matryer mocks are generated with skip-ensure: true unless the mock is in-package and the replacement is an alias of the "
-        "original type (a replaced signature does not implement the source interface; in a separate package the ensure line's "
-        "import of the source package is left to goimports by the template)",
+        "matryer mocks are generated with skip-ensure: true unless the replacement is an alias of the original type (a replaced "
+        "signature does not implement the source interface); with the alias the ensure line stays on and must compile",
         "template, formatter and the listing of setting-less interfaces are observation/spelling dimensions defined in the spec's "
         "constants; they are combined with the contract's dimensions by the seeded sampler (pairwise covering), not by TLC",
     ]
